@@ -30,13 +30,14 @@ import (
 )
 
 type pkgConfig struct {
-	Pkg      string            `json:"pkg"`      // import path relative to the module, e.g. "lintcmd/runner"
-	Files    []string          `json:"files"`    // base names; empty = all non-test files
-	Monitor  []string          `json:"monitor"`  // struct types whose field accesses are monitored: "T" (all fields) or "T.f"
-	MapRange bool              `json:"maprange"` // rewrite range-over-map into an environment choice
+	Pkg      string            `json:"pkg"`            // import path relative to the module, e.g. "lintcmd/runner"
+	Files    []string          `json:"files"`          // base names; empty = all non-test files
+	Monitor  []string          `json:"monitor"`        // struct types whose field accesses are monitored: "T" (all fields) or "T.f"
+	MapRange bool              `json:"maprange"`       // rewrite range-over-map into an environment choice
 	MapFuncs []string          `json:"maprange_funcs"` // if non-empty: only inside these functions / methods (by name)
-	Seams    map[string]string `json:"seams"`    // "loader.Graph" -> "verifGraph": call through a package-level var
-	Sync     bool              `json:"sync"`     // rewrite sync / sync/atomic imports
+	Seams    map[string]string `json:"seams"`          // "loader.Graph" -> "verifGraph": call through a package-level var
+	Sync     bool              `json:"sync"`           // rewrite sync / sync/atomic imports
+	OnlyMap  bool              `json:"only_maprange"`  // rewrite nothing but range-over-map (no go statements, channels, monitors, seams)
 }
 
 type config struct {
@@ -347,6 +348,12 @@ func (r *rw) isConstOrNil(e ast.Expr) bool {
 }
 
 func (r *rw) rule(n ast.Node) (string, bool) {
+	if r.cfg.OnlyMap {
+		if n, ok := n.(*ast.RangeStmt); ok && r.cfg.MapRange && r.isMap(n.X) && r.mapRangeHere(n) {
+			return r.rangeMap(n), true
+		}
+		return "", false
+	}
 	switch n := n.(type) {
 	case *ast.ChanType:
 		return "*" + r.sched() + ".Chan[" + r.str(n.Value) + "]", true
